@@ -105,6 +105,28 @@ def keyword_faults():
     return out
 
 
+def ambiguity_faults():
+    """applications that two overloads fit equally (same result type, polymorphic argument) must be rejected as ambiguous:
+    user overloads, a library operator with two numeric domains imported, exports of two domains, operands that are
+    themselves overloaded calls or constants; every argument position of a two-argument overload"""
+    both = 'import from Integer, MachineInteger;\n'
+    f2 = 'af(x: Integer): String == "i";\naf(x: MachineInteger): String == "m";\n'
+    g2 = 'ag(x: Integer, y: String): String == "i";\nag(x: MachineInteger, y: String): String == "m";\nah(y: String, x: Integer): String == "i";\nah(y: String, x: MachineInteger): String == "m";\n'
+    k2 = 'ak(): Integer == 1;\nak(): MachineInteger == 2;\n'
+    doms = 'AA: with { sc: Integer -> String } == add { sc(n: Integer): String == "A" }\nAB: with { sc: MachineInteger -> String } == add { sc(n: MachineInteger): String == "B" }\n'
+    progs = [('user-overload-literal', both + f2 + 'stdout << af(1) << newline;\n'),
+             ('user-overload-literal-juxtaposed', both + f2 + 'stdout << af 1 << newline;\n'),
+             ('user-overload-sum-of-literals', both + f2 + 'stdout << af(1 + 2) << newline;\n'),
+             ('user-overload-first-of-two', both + g2 + 'stdout << ag(1, "s") << newline;\n'),
+             ('user-overload-second-of-two', both + g2 + 'stdout << ah("s", 1) << newline;\n'),
+             ('user-overload-of-overloaded-call', both + f2 + k2 + 'stdout << af(ak()) << newline;\n'),
+             ('library-operator-two-domains', both + 'stdout << 1 << newline;\n'),
+             ('library-infix-two-domains', both + 'stdout << (1 = 1) << newline;\n'),
+             ('exports-of-two-domains', doms + both + 'import from AA, AB;\nstdout << sc 2 << newline;\n'),
+             ('local-overload-in-function', both + 'aw(): String == { lf(x: Integer): String == "i"; lf(x: MachineInteger): String == "m"; lf(7) }\nstdout << aw() << newline;\n')]
+    return [('ambiguous:' + n, t) for n, t in progs]
+
+
 def main(tier):
     ck = Check(PID, 'exploration', tier)
     b = ck.build('aldor', 'foam', 'libaldor')
@@ -148,7 +170,7 @@ def main(tier):
     for f, c in bases:
         for kind, site, m in mutants(c):
             muts.append((kind, f, site, progspace.render_unit([m], 0)))
-    for kind, text in TEMPLATES + keyword_faults():
+    for kind, text in TEMPLATES + keyword_faults() + ambiguity_faults():
         muts.append((kind, 'template', kind, progspace.PRELUDE + text.replace('@K@', '0') + ('c0();\n' if 'c@K@' in text else '')))
 
     chunks = [muts[i::NCPU * 2] for i in range(NCPU * 2)]
@@ -192,7 +214,7 @@ def main(tier):
                 ck.nontrivial((kind, f, site))
     ck.cov.update({
         'rule': 'accepted: all %d family cases compile without error; rejected: %d base programs x every eligible site x faults {wrong argument type, missing/extra argument, undeclared name, '
-                'wrong result type} + %d template faults (duplicate definition, assignment to constant, missing export, operation outside category, missing import, ...) + 23 ill-formed calls of functions with default parameters (unknown keyword, parameter given twice, ...); '
+                'wrong result type} + %d template faults (duplicate definition, assignment to constant, missing export, operation outside category, missing import, ...) + 23 ill-formed calls of functions with default parameters (unknown keyword, parameter given twice, ...) + 10 ambiguous applications (two overloads with the same result type fit a polymorphic argument); '
                 'distinct = mutants rejected with a positioned error and no output file' % (len(cases), len(bases), len(TEMPLATES)),
         'accepted_cases': nacc, 'mutants': len(muts), 'rejected_by_kind': kinds,
         'samples': [muts[0][3][-400:], TEMPLATES[3][1]],
